@@ -56,6 +56,7 @@ def build(desc, side, ctx=None):
         b.S = [s.callable for s in b.srcs]
     elif tool.outer:
         b.outer = make_source(ctx, "outer", [s.obj for s in b.srcs], b.P.get("outer") or {}, side)
+        b.outer.item_sigs = [("src", s.name) for s in b.srcs]
         b.S = [b.outer.obj]
     else:
         b.S = [s.obj for s in b.srcs]
@@ -195,7 +196,7 @@ def run_sync(desc):
 
 
 CONSUMER_EVENTS = ("yield", "stop", "raise", "return")
-IGNORED_FOR_TRACE = ("repull", "close", "close-raise")
+IGNORED_FOR_TRACE = ("close", "close-raise") if __import__("os").environ.get("VF_STRICT_REPULL") else ("repull", "close", "close-raise")
 
 
 def consumer_view(log):
